@@ -595,6 +595,67 @@ func TestC09(t *testing.T) {
 	}
 	rec.Exhaustive("deep-and-long(20 families x 14 sizes up to 200)", true)
 
+	// (E5) comments: bodies ending in 0..4 backslashes x LF / CR LF / CR,
+	// continuation lines that are empty, only backslashes, start with a
+	// backslash, contain "#", or are themselves continued (3 levels), in the
+	// middle of a program and at its end.  The expected token sequence is
+	// whatever the own tokenizer (jq 1.7 rule: an odd number of backslashes
+	// before the line end continues the comment) makes of the text.
+	{
+		texts := []string{"", " note", "#", "x#y", `\x`, ` a \\ b`}
+		small := []string{"", "x"}
+		ends := []string{"\n", "\r\n", "\r"}
+		bs := func(k int) string { return strings.Repeat(`\`, k) }
+		var comments []string
+		var build func(prefix string, level int)
+		build = func(prefix string, level int) {
+			tx, maxk := texts, 4
+			if level == 2 {
+				tx, maxk = small, 2
+			}
+			for _, tx := range tx {
+				for k := 0; k <= maxk; k++ {
+					for _, e := range ends {
+						c := prefix + tx + bs(k) + e
+						if k%2 == 1 && level < 2 {
+							build(c, level+1)
+						} else {
+							comments = append(comments, c)
+						}
+					}
+					if level > 0 || k > 0 {
+						comments = append(comments, prefix+tx+bs(k)) // ends the text (only meaningful at EOF)
+					}
+				}
+			}
+		}
+		build("#", 0)
+		n := 0
+		for _, cm := range comments {
+			for _, b := range []string{"1 " + cm + "+ 2", "1 " + cm, cm + "\n.a", "\"\\( 1 " + cm + "+ 2 )\"", "[ 1 " + cm + ", 2 " + cm + "]"} {
+				idx++
+				if !rec.Mine(idx) {
+					continue
+				}
+				ts, err := tokenize(b)
+				if err != nil {
+					rec.Discard("comments/untokenizable")
+					continue
+				}
+				n++
+				c := spaceCase{joinToks(ts, " "), b}
+				rec.Eval()
+				msg, cls, q := checkSpace(c)
+				rec.Class("comments/" + cls)
+				noteNTq(ts, q)
+				if msg != "" {
+					rec.Direct("respace", c, "%s", msg)
+				}
+			}
+		}
+		rec.Exhaustive(fmt.Sprintf("comment-continuations(%d comments x 5 placements)", len(comments)), true)
+	}
+
 	// (K) corpus
 	corpus := loadCorpus(t)
 	var corpusToks [][]tok
